@@ -142,9 +142,15 @@ def red_obligations(prog):
             key = "%s:%s@%s" % (fn, p, "*" if o is None else o)
             oid = "R-RED:%s:%s" % (key, k)
             text = "raw caller bytes %s[%s] may be decoded by reduction (%s) only in a listed role" % (p, "*" if o is None else o, k)
+            same_param = [r for r in roles if r.startswith("%s:%s@" % (fn, p))]
             if key in roles:
                 used.add(key)
                 obs.append(Obligation("R-RED", oid, locs[0], fn, text, True, "role: " + roles[key]))
+            elif o is None and same_param:
+                # the offset is not resolved (the buffer was selected through a table or a conditional): the parameter's
+                # listed roles cover it, and they count as still exercised
+                used.update(same_param)
+                obs.append(Obligation("R-RED", oid, locs[0], fn, text, True, "offset not resolved; roles of the parameter: " + ", ".join(sorted(same_param))))
             else:
                 obs.append(Obligation("R-RED", oid, locs[0], fn, text, False,
                                       "reducing decode at %s of bytes rooted in parameter %s of %s, which has no listed role; use the overflow-checked form"
